@@ -35,7 +35,7 @@ def REQUIRED(tier):
 
 def _required(tier):
     return ["azimuth:outside_0_360", "angles:non_degree_unit", "edit:strings_containing_keywords", "object:after_product_at_other_depth", "bytes_roundtrips", "object_roundtrips", "edits_applied", "edits_refused_file_identical", "sky:dec_in_(-1,0)", "sky:carry_59.99",
-            "frame:pulsarcentric", "frame:barycentric", "frame:topocentric", "edit:absent_key", "edit:unknown_key", "edit:wrong_type", "edit:out_of_range"]
+            "frame:pulsarcentric", "frame:barycentric", "frame:topocentric", "edit:absent_key", "edit:unknown_key", "edit:wrong_type", "edit:out_of_range", "derived:from_int_typed_template"]
 
 
 def cases(tier, seed):
@@ -46,6 +46,8 @@ def cases(tier, seed):
         yield {"kind": "object", "n": 20, "seed": int(seed) * 1000003 + i}
     for i in range(nc):
         yield {"kind": "edit", "seed": int(seed) * 1000003 + i}
+    for i in range(2 if tier == "quick" else 20):
+        yield {"kind": "derived", "n": 16, "seed": int(seed) * 1000003 + 777 + i}
 
 
 def _rand_str(rng, lo=0, hi=80):
@@ -78,7 +80,44 @@ def _rand_val(rng, code):
 
 
 def run_case(case, ctx):
-    {"bytes": _bytes, "object": _object, "edit": _edit}[case["kind"]](case, ctx)
+    {"bytes": _bytes, "object": _object, "edit": _edit, "derived": _derived}[case["kind"]](case, ctx)
+
+
+def _derived(case, ctx):
+    """Headers derived from a hand-built one (whole numbers typed as Python ints: tstart=58000, fch1=1500, foff=-1, dm left at its default 0)
+    through new_header / prep_outfile(updates=) / dedispersed_header: the file holds the values that were asked for."""
+    from sigpyproc.header import Header
+
+    rng = np.random.default_rng([case["seed"], 23])
+    for j in range(case["n"]):
+        ints = bool(j % 2 == 0)
+        base = dict(filename="x.fil", data_type="filterbank", nchans=16, nbits=8, tsamp=0.001, nsamples=64)
+        base.update(dict(tstart=58000, fch1=1500, foff=-1) if ints else dict(tstart=58000.0, fch1=1500.0, foff=-1.0))
+        hdr = Header(**base)
+        upd = [{"tstart": 58000.0 + float(rng.integers(1, 64)) / 64.0}, {"foff": -0.5, "fch1": 1499.75}, {"dm": float(rng.integers(1, 4000)) / 8.0 + 0.125},
+               {"tstart": 58001.53125, "foff": -0.25}][j % 4]
+        ctx.evaluated(); ctx.count("derived_headers"); ctx.count("derived:from_int_typed_template" if ints else "derived:from_float_typed_template")
+        one = {"kind": "derived", "n": case["n"], "seed": case["seed"], "j": j, "updates": upd, "int_typed": ints}
+        path = os.path.join(ctx.tmp, f"dv{case['seed']}_{j}.fil")
+        try:
+            if "dm" in upd and j % 8 >= 4:
+                w = hdr.dedispersed_header(upd["dm"]).prep_outfile(path)
+            else:
+                w = hdr.prep_outfile(path, updates=dict(upd))
+            w.cwrite(np.zeros(16 * 4, dtype=np.uint8))
+            w.close()
+            d, hl, raw = sigfile.parse_file(path)
+        except Exception as exc:  # noqa: BLE001
+            ctx.violation(f"derived-header-raised:{type(exc).__name__}@{exc_site(exc)}", fmt_exc(exc), one)
+            continue
+        want = {"tstart": 58000.0, "fch1": 1500.0, "foff": -1.0, "refdm": 0.0}
+        want.update({("refdm" if k == "dm" else k): v for k, v in upd.items()})
+        bad = {k: (d.get(k), v) for k, v in want.items() if d.get(k) is None or abs(float(d[k]) - v) > 1e-9 * max(1.0, abs(v))}
+        if bad:
+            ctx.violation("derived-header-stores-another-value", f"header derived with {upd} from a template whose whole numbers are {'ints' if ints else 'floats'}: file holds {bad} (stored, requested)", one)
+        else:
+            ctx.nontrivial_case(one)
+        os.unlink(path)
 
 
 # ---------------------------------------------------------------- (a)
